@@ -118,7 +118,7 @@ def step(w, ri, tg):
         js = json.loads(metapype_io.to_json(src))
         for n in walk(src):
             Node.store.pop(n.id, None)          # undo the scratch build
-        style = rng.choice(["int", "ext", "uuid", "session"])       # ("n<k>" is what impl.build itself hands out in this harness: not used here)
+        style = rng.choice(["int", "ext", "uuid", "session", "null"])       # ("n<k>" is what impl.build itself hands out in this harness: not used here)
         if style == "session":
             # ids as ANOTHER SESSION of this same program would have written them: if this process hands out predictable ids (a
             # counter), the other session's ids are the ones this process is about to hand out
@@ -132,7 +132,9 @@ def step(w, ri, tg):
         def renum(d):
             for nm, body in d.items():
                 for f in body:
-                    if "id" in f:
+                    if "id" in f and style == "null":
+                        f["id"] = None          # a document without ids (JSON null): every node gets a fresh one on import
+                    elif "id" in f:
                         w.fserial += 1
                         f["id"] = str(w.fserial) if style == "int" else (f"ext-{w.fserial}" if style == "ext" else f"00000000-0000-11ee-8000-{w.fserial:012x}")
                     if "children" in f:
@@ -281,6 +283,19 @@ def run(ctx):
         metas.append((hist, {k: w.tags.get(id(n)) for k, n in Node.store.items()}))
         if len(samples) < 3:
             samples.append({"history": hist, "registered": len(Node.store)})
+    # registration lasts until deletion however many nodes are alive at once (a very wide attribute list, many documents in one service)
+    if True:
+        impl.reset()
+        BIG = 70000
+        first = Node("attributeList")
+        held = [first]
+        for i in range(BIG):
+            held.append(Node("attribute"))
+        total += BIG
+        lostn = [n.name for n in (held[0], held[1], held[BIG // 2], held[-1]) if Node.get_node_instance(n.id) is not n]
+        if lostn or len(Node.store) != BIG + 1:
+            fails.append({"case": {"alive_at_once": BIG + 1}, "what": f"with {BIG + 1} nodes alive at once the registry holds {len(Node.store)} entries; not retrievable although never deleted: {lostn}"})
+        del held
     # copies are new nodes whatever the registry says about their originals: a copy of a tree in which some node's entry was dropped
     # (delete_node_instance(id, children=False) on a node that stays in its tree) registers every node of the copy
     for i in range(40 if ctx.tier == "quick" else 600):
